@@ -242,10 +242,7 @@ pub fn masks(d: &Dec, c: &Case, native_flags: u64) -> Mask {
         }
         _ => {}
     }
-    if d.uses_high_byte() {
-        tags.push("r8h".into());
-    }
-    if d.addr_size == 4 && c.mode == 64 && (d.mem().is_some() || d.has_prefix(0x67)) && d.has_prefix(0x67) {
+    if d.has_prefix(0x67) && (crate_is_str(mn) || mn.starts_with("loop") || matches!(mn, "jecxz" | "jcxz" | "jrcxz")) {
         tags.push("addr32".into());
     }
     if d.has_prefix(0x66) && w != 16 && !d.ops.iter().any(|o| matches!(o, Op::Reg(r) if r.class == RegClass::Xmm)) {
@@ -253,7 +250,7 @@ pub fn masks(d: &Dec, c: &Case, native_flags: u64) -> Mask {
     }
     // same register used twice
     let regs: Vec<u8> = d.ops.iter().filter_map(|o| if let Op::Reg(r) = o { if r.class == RegClass::Gpr { Some(r.num) } else { None } } else { None }).collect();
-    if regs.len() >= 2 && regs[0] == regs[1] {
+    if regs.len() >= 2 && regs[0] == regs[1] && matches!(mn, "xadd" | "xchg" | "cmpxchg") {
         tags.push("same-reg".into());
     }
     m.cond = tags.join(",");
@@ -344,16 +341,17 @@ fn not_architectural(d: &Dec, mn: &str) -> Option<&'static str> {
         return Some("undefined:66h-near-branch(vendor-specific)");
     }
     // F2 with MOVS/STOS/LODS is reserved (REPNE is defined for CMPS/SCAS only)
-    let is_string = crate_is_str(mn);
+    let has_xmm = d.ops.iter().any(|o| matches!(o, Op::Reg(r) if r.class == RegClass::Xmm));
+    // (capstone gives the SSE2 scalar move the same name as the string instruction MOVSD)
+    let is_string = crate_is_str(mn) && !has_xmm;
     if d.bytes_have_f2 && ["movs", "stos", "lods"].iter().any(|p| mn.starts_with(p)) && is_string {
         return Some("undefined:repne-on-movs-stos-lods(reserved)");
     }
     // F2/F3 in front of a non-string instruction is reserved: this CPU makes LOOPE/LOOPNE test the
     // other ZF polarity, capstone mis-sizes operands of 66+F2/F3 combinations, ...  (F3 90 = PAUSE
     // and the SSE mandatory prefixes are different instructions and stay in.)
-    let legacy = dec::legacy_prefixes(&d.raw);
+    let legacy = dec::legacy_prefixes(&d.raw, d.mode64);
     let has_rep = legacy.contains(&0xF2) || legacy.contains(&0xF3);
-    let has_xmm = d.ops.iter().any(|o| matches!(o, Op::Reg(r) if r.class == RegClass::Xmm));
     if has_rep && !is_string && !has_xmm && mn != "pause" {
         return Some("undefined:rep-prefix-on-non-string(reserved)");
     }
@@ -438,7 +436,10 @@ pub fn check_case(c: &Case, obs: &mut Obs) -> Result<(), Failure> {
             let narrow = |r: &Option<dec::Reg>| matches!(r, Some(x) if x.class == RegClass::Gpr && x.bits < c.mode as usize);
             let with67 = d.has_prefix(0x67) && matches!(d.mem(), Some(Op::Mem { base, index, .. }) if narrow(base) || narrow(index));
             let cause = if with67 { "addr32" } else { "" };
-            let sig = if cause == "addr32" {
+            let sig = if let Some(why) = not_architectural(&d, &mn) {
+                // capstone reports inconsistent operand sizes for reserved prefix combinations
+                format!("C01|{}|*|{}|lift|sort-error", mode, why.split('(').next().unwrap_or(why))
+            } else if cause == "addr32" {
                 format!("C01|{}|*|m(67h)|lift|sort-error", mode)
             } else {
                 format!("C01|{}|{}|{}|lift|sort-error", mode, family(&mn), form)
@@ -469,6 +470,14 @@ pub fn check_case(c: &Case, obs: &mut Obs) -> Result<(), Failure> {
     if let Some(why) = not_architectural(&d, &mn) {
         obs.exclude(why);
         return Ok(());
+    }
+    // a relative branch into the bytes of the instruction itself does not land on an int3 pad
+    if let Some(Op::Imm { val, .. }) = d.ops.first() {
+        let t = *val as u64;
+        if (mn.starts_with('j') || mn.starts_with("loop") || mn == "call") && t >= SLOT && t < SLOT + len as u64 {
+            obs.exclude("harness:branch-into-own-bytes");
+            return Ok(());
+        }
     }
     if !mode64 {
         if let Err(why) = mode_invariant(code, &d) {
@@ -582,7 +591,7 @@ pub fn check_case(c: &Case, obs: &mut Obs) -> Result<(), Failure> {
             return format!("C01|{}|{}|-|*|addr32", mode, family(&mn));
         }
         if t.contains(&"offset>=width") {
-            let k = kinds(&d).replace("r8h", "r").replace("r8", "r");
+            let k = kinds(&d).replace("r8", "r");
             return format!("C01|{}|{}|{}|*|offset>=width", mode, family(&mn), k);
         }
         format!("C01|{}|{}|{}{}|{}|{}", mode, family(&mn), kinds(&d), width_tag(&d), what, t.join(","))
@@ -733,7 +742,6 @@ fn kinds(d: &Dec) -> String {
         .iter()
         .map(|o| match o {
             Op::Reg(r) => match r.class {
-                RegClass::Gpr if r.high => "r8h".to_string(),
                 RegClass::Gpr if r.bits == 8 => "r8".to_string(),
                 RegClass::Gpr => "r".to_string(),
                 RegClass::Xmm => "xmm".to_string(),
@@ -768,7 +776,7 @@ fn classify(c: &Case, d: &Dec, mn: &str, mask: &Mask, what: &str, il: &run_il::I
     }
     // bit tests: offset not reduced modulo the width / no bit-string addressing
     if tags.contains(&"offset>=width") {
-        let k = kinds(d).replace("r8h", "r").replace("r8", "r");
+        let k = kinds(d).replace("r8", "r");
         return format!("C01|{}|{}|{}|*|offset>=width", mode, fam, k);
     }
     // high-byte register write: all other bits cleared and the byte OR-ed into the old byte
@@ -816,12 +824,16 @@ fn classify(c: &Case, d: &Dec, mn: &str, mask: &Mask, what: &str, il: &run_il::I
             _ => true,
         })
         .collect();
+    if matches!(what, "CF" | "ZF" | "SF" | "OF" | "DF") {
+        // a flag formula belongs to the mnemonic's builder, not to an operand form
+        return format!("C01|{}|{}|*|{}|{}", mode, fam, what, tags.join(","));
+    }
     format!("C01|{}|{}|{}{}|{}|{}", mode, fam, kinds(d), width_tag(d), what, tags.join(","))
 }
 
 /// metamorphic confirmation of the 67h root cause: the same bytes without 67h lift fine
 fn lifts_without_67(mode64: bool, code: &[u8]) -> bool {
-    let np = dec::legacy_prefixes(code).len();
+    let np = code.iter().position(|b| ![0x66, 0x67, 0xF2, 0xF3, 0xF0, 0x26, 0x2E, 0x36, 0x3E, 0x64, 0x65].contains(b)).unwrap_or(0);
     let mut v: Vec<u8> = code[..np].iter().copied().filter(|b| *b != 0x67).collect();
     v.extend_from_slice(&code[np..]);
     if v.len() == code.len() {
